@@ -386,7 +386,8 @@ class Verdict:
 
     def judge_rejected(self, rej, wd, scheds_by_run=None, scenarios_by_name=None, source=""):
         """rej: entry of validate_*()['rejected']"""
-        if len(self.violations) >= self.MAX_JUDGED:
+        self.diagnosed = getattr(self, "diagnosed", 0) + 1
+        if len(self.violations) >= self.MAX_JUDGED or self.diagnosed > 3 * self.MAX_JUDGED:
             self.unjudged = getattr(self, "unjudged", 0) + 1
             return
         lines = rej["lines"]
